@@ -18,7 +18,7 @@ FAM = ["logfilter"]
 def indexer_part(ctx, q):
     for tag in ("c1", "c3"):
         r = vlib.run_tlc(ctx, ["indexer"], "IndexerGen.tla", "IndexerGen_%s.cfg" % tag, workers=1, timeout=1800, deadlock=False,
-                         simulate=["-simulate", "num=%d" % (120 if q else 4000), "-depth", "30", "-seed", str(ctx.seed)], name="gen_idx_" + tag)
+                         simulate=["-simulate", "num=%d" % (1500 if q else 12000), "-depth", "30", "-seed", str(ctx.seed)], name="gen_idx_" + tag)
         scripts = []
         for line in r.out.splitlines():
             if line.startswith('<<"GEN", "'):
